@@ -1,6 +1,8 @@
 package plib
 
 import (
+	"encoding/json"
+
 	"github.com/ohler55/ojg/alt"
 )
 
@@ -52,7 +54,7 @@ func (h *BuildHandler) Null()            { h.Events = append(h.Events, "null"); 
 func (h *BuildHandler) Bool(v bool)      { h.Events = append(h.Events, "bool"); h.value(v) }
 func (h *BuildHandler) Int(v int64)      { h.Events = append(h.Events, "int"); h.value(v) }
 func (h *BuildHandler) Float(v float64)  { h.Events = append(h.Events, "float"); h.value(v) }
-func (h *BuildHandler) Number(v string)  { h.Events = append(h.Events, "number"); h.value(Num(v)) }
+func (h *BuildHandler) Number(v string)  { h.Events = append(h.Events, "number"); h.value(json.Number(v)) }
 func (h *BuildHandler) String(v string)  { h.Events = append(h.Events, "string"); h.value(v) }
 func (h *BuildHandler) Key(v string)     { h.Events = append(h.Events, "key"); h.key = v; h.hasKey = true }
 func (h *BuildHandler) ObjectStart() {
@@ -86,9 +88,6 @@ func (h *BuildHandler) end(e string) {
 	h.b.Pop()
 	h.check()
 }
-
-// Num marks a number delivered as text by the tokenizer.
-type Num string
 
 // Result is the single document (or nil); Docs all documents.
 func (h *BuildHandler) Result() any {
